@@ -38,16 +38,19 @@ class ReceiveData(Contract):
         return [("exact-length", z3.Length(result.e) == size),
                 ("exact-bytes", result.e == z3.SubSeq(stream, pos0, size)),
                 ("cursor", pos == pos0 + size),
+                ("in-stream", pos0 + size <= z3.Length(stream)),
                 ("out-untouched", st.get(a["sock"], "out").e == old.get(a["sock"], "out").e)]
 
     def x_timeout(self, E, old, st, a, exc):
         return [("cursor-in-stream", z3.And(st.get(a["sock"], "pos").e >= old.get(a["sock"], "pos").e,
-                                             st.get(a["sock"], "pos").e <= z3.Length(old.get(a["sock"], "stream").e)))]
+                                             st.get(a["sock"], "pos").e <= z3.Length(old.get(a["sock"], "stream").e))),
+                ("out-untouched", st.get(a["sock"], "out").e == old.get(a["sock"], "out").e)]
 
     def x_closed(self, E, old, st, a, exc):
         stream, pos0, _ = _sockview(old, a["sock"])
         pos = st.get(a["sock"], "pos").e
-        post = [("cursor-in-stream", z3.And(pos >= pos0, pos <= z3.Length(stream)))]
+        post = [("cursor-in-stream", z3.And(pos >= pos0, pos <= z3.Length(stream))),
+                ("out-untouched", st.get(a["sock"], "out").e == old.get(a["sock"], "out").e)]
         fatal = st.get(a["sock"], "fatal").e
         if st.has(exc, "partialData"):
             pd = st.get(exc, "partialData")
@@ -113,7 +116,8 @@ class SendData(Contract):
         out0 = old.get(a["sock"], "out").e
         out = st.get(a["sock"], "out").e
         return [("sent-is-prefix", z3.And(z3.PrefixOf(out0, out),
-                                          z3.PrefixOf(out, z3.Concat(out0, a["data"].e))))]
+                                          z3.PrefixOf(out, z3.Concat(out0, a["data"].e)))),
+                ("inbound-untouched", st.get(a["sock"], "pos").e == old.get(a["sock"], "pos").e)]
 
     def loop_inv(self, k, E, old, st, a):
         out0 = old.get(a["sock"], "out").e
@@ -123,3 +127,83 @@ class SendData(Contract):
 
     def loop_modifies(self, k, E, st, a):
         return [(a["sock"], "out")]
+
+
+def new_connection(E, st, name="conn"):
+    """a SocketConnection wrapping a model socket"""
+    sock = new_socket(E, st, name + "_sock")
+    conn = st.new_obj("Pyro5.socketutil.SocketConnection", sock=sock)
+    return conn
+
+
+@R.contract
+class ConnRecv(Contract):
+    """SocketConnection.recv(size) == receive_data(self.sock, size): the exact-read contract lifted to the connection"""
+    name = "Pyro5.socketutil.SocketConnection.recv"
+    props = ("C17", "C06", "C03")
+    raises = {"Pyro5.errors.TimeoutError": "x_any", "Pyro5.errors.ConnectionClosedError": "x_any"}
+
+    def setup(self, E, st):
+        return {"self": new_connection(E, st), "size": VInt(z3.Const("size", IntS))}
+
+    def requires(self, E, st, a):
+        return [("size>=0", a["size"].e >= 0)]
+
+    def modifies(self, E, st, a):
+        s = st.get(a["self"], "sock")
+        return [(s, "pos"), (s, "eof"), (s, "fatal")]
+
+    def result(self, E, st, a):
+        return VBytes(fresh("received", BytesS))
+
+    def ensures(self, E, old, st, a, result):
+        sock = st.get(a["self"], "sock")
+        stream, pos0, _ = _sockview(old, sock)
+        size = a["size"].e
+        return [("exact-length", z3.Length(result.e) == size),
+                ("exact-bytes", result.e == z3.SubSeq(stream, pos0, size)),
+                ("cursor", st.get(sock, "pos").e == pos0 + size),
+                ("in-stream", pos0 + size <= z3.Length(stream)),
+                ("out-untouched", st.get(sock, "out").e == old.get(sock, "out").e)]
+
+    def refine_result(self, E, old, st, a, res):
+        """for a constant size n <= 64 the received bytes are handed on element by element: stream[pos0+i], i < n
+        (a consequence of exact-bytes and in-stream; lets fixed-size headers be decoded by plain arithmetic)"""
+        n = E._const_int(a["size"])
+        if n is None or n > 64:
+            return res
+        sock = old.get(a["self"], "sock")
+        stream, pos0 = old.get(sock, "stream").e, old.get(sock, "pos").e
+        units = [stream[pos0 + i] for i in range(n)]
+        st.assume(*[z3.And(u >= 0, u <= 255) for u in units])      # socket model: the stream consists of bytes
+        return VBytes.from_units(units)
+
+    def x_any(self, E, old, st, a, exc):
+        sock = st.get(a["self"], "sock")
+        return [("cursor-in-stream", z3.And(st.get(sock, "pos").e >= old.get(sock, "pos").e,
+                                             st.get(sock, "pos").e <= z3.Length(old.get(sock, "stream").e))),
+                ("out-untouched", st.get(sock, "out").e == old.get(sock, "out").e)]
+
+
+@R.contract
+class ConnSend(Contract):
+    name = "Pyro5.socketutil.SocketConnection.send"
+    props = ("C17", "C03")
+    raises = {"Pyro5.errors.TimeoutError": "x_any", "Pyro5.errors.ConnectionClosedError": "x_any"}
+
+    def setup(self, E, st):
+        return {"self": new_connection(E, st), "data": VBytes(z3.Const("data", BytesS))}
+
+    def modifies(self, E, st, a):
+        return [(st.get(a["self"], "sock"), "out")]
+
+    def ensures(self, E, old, st, a, result):
+        sock = st.get(a["self"], "sock")
+        return [("every-byte-once-in-order", st.get(sock, "out").e == z3.Concat(old.get(sock, "out").e, a["data"].e)),
+                ("inbound-untouched", st.get(sock, "pos").e == old.get(sock, "pos").e)]
+
+    def x_any(self, E, old, st, a, exc):
+        sock = st.get(a["self"], "sock")
+        out0, out = old.get(sock, "out").e, st.get(sock, "out").e
+        return [("sent-is-prefix", z3.And(z3.PrefixOf(out0, out), z3.PrefixOf(out, z3.Concat(out0, a["data"].e)))),
+                ("inbound-untouched", st.get(sock, "pos").e == old.get(sock, "pos").e)]
